@@ -1,6 +1,7 @@
 import DV.Model.Dense
 import DVP.Lemmas.Bisect
 import DVP.Lemmas.Hermite
+import DVP.Lemmas.SlopeCache
 /-!
 # C06 — dense output is a consistent continuous extension of the computed trajectory
 
@@ -11,8 +12,12 @@ contains the query — for forward runs and, with the repaired lookup, for backw
 and the vector lookup agree; a Hermite piece (regenerated from the source, C17) reproduces its end
 values and end slopes and every cubic.  **Not proved** (numerical analysis / outside the model): the
 `O(h⁴)` interpolation error (Peano kernel bound for cubic Hermite interpolation, cited), that the end
-slopes handed to the pieces are the right-hand side at the recorded states (slope caches of the
-integrators: measured on the implementation for every method family), Richardson wrappers.
+end slope computed by a step is the right-hand side at its end state (C02's step theorems give it for
+the explicit model; measured on the implementation for every method family), Richardson wrappers.
+**Proved as well** (`DV.SlopeCache`, tied to the code by replaying call sequences with jumps, repeated
+starts and calls abandoned by a fault at a random evaluation): the cache through which a step's end slope
+becomes the next step's start slope is consistent after EVERY history of completed and abandoned calls,
+so the start slope of every dense piece is the right-hand side at the piece's start state.
 -/
 namespace DVP.C06
 open DV DV.Dense DV.Bisect DVP.Bisect
@@ -69,6 +74,32 @@ theorem piece_reproduces_recorded_states {K : Type} [Field K] [DecidableEq K] (t
     DVP.Gen.Hermite.call t0 t1 p0 p1 m0 m1 t0 = p0 ∧ DVP.Gen.Hermite.call t0 t1 p0 p1 m0 m1 t1 = p1 ∧
     DVP.Gen.Hermite.grad t0 t1 p0 p1 m0 m1 t0 = m0 ∧ DVP.Gen.Hermite.grad t0 t1 p0 p1 m0 m1 t1 = m1 :=
   ⟨DVP.Hermite.call_left .., DVP.Hermite.call_right _ _ _ _ _ _ h, DVP.Hermite.grad_left .., DVP.Hermite.grad_right _ _ _ _ _ _ h⟩
+
+/-- **The start slope of every step's dense piece is the right-hand side at the step's start**, after any
+history of calls on the integrator object: completed (with any number of rejected attempts before the
+accepted one) or abandoned by an exception at any point, from any points, with any steps — whether the
+slope was reused from the cache or evaluated -/
+theorem start_slope_is_rhs_after_every_history {α S R : Type} [DecidableEq α] [DecidableEq S] [Add α]
+    (f : α → S → R) (adv : α → S → α → S) (calls : List (α × S × DV.SlopeCache.Ending α)) (t : α) (y : S)
+    (e : DV.SlopeCache.Ending α) :
+    (DV.SlopeCache.call f adv (DVP.SlopeCache.runCalls f adv DV.SlopeCache.empty calls) t y e).initialRhs = f t y :=
+  DVP.SlopeCache.history_initial f adv calls t y e
+
+/-- the cache invariant itself: whenever the tags name a point, the cached slope is the right-hand side there -/
+theorem slope_cache_consistent {α S R : Type} [DecidableEq α] [DecidableEq S] [Add α]
+    (f : α → S → R) (adv : α → S → α → S) (calls : List (α × S × DV.SlopeCache.Ending α)) :
+    DVP.SlopeCache.Inv f (DVP.SlopeCache.runCalls f adv DV.SlopeCache.empty calls) :=
+  DVP.SlopeCache.history_inv f adv calls DV.SlopeCache.empty (DVP.SlopeCache.inv_empty f)
+
+/-- non-vacuity, and the reuse really happens: after a completed call with a rejected attempt (steps 4 then 2
+from time 0, state 10; `f t y = 100 t + y`, a step adds `h` to the state) the next call from the end point
+`(2, 12)` reuses the cached slope `212`, a call from elsewhere does not -/
+example : let f : Int → Int → Int := fun t y => 100 * t + y
+          let adv : Int → Int → Int → Int := fun _ y h => y + h
+          let c := (DV.SlopeCache.call f adv DV.SlopeCache.empty 0 10 (.completed [4, 2])).cache
+          (DV.SlopeCache.call f adv c 2 12 (.completed [1])).reused = true ∧
+          (DV.SlopeCache.call f adv c 2 12 (.completed [1])).initialRhs = 212 ∧
+          (DV.SlopeCache.call f adv c 2 13 (.completed [1])).reused = false := by decide
 
 /-- non-vacuity: end times 1,2,3,4; forward the query 5/2 is answered by piece 2 (spanning (2,3]),
 backward by piece 1 (spanning [2,3]); at a stored time both conventions return a piece ending there -/
